@@ -1170,3 +1170,509 @@ func memoWrite(w paramWrite) bool {
 	}
 	return false
 }
+
+// ---------------------------------------------------------------------------------------------------------------
+// R4.12 a memo kept on the reader is keyed by everything its value depends on.
+
+// backwardParams: the parameters of fn that the value v is computed from (through operands, phis, call arguments and
+// the elements stored into containers that v denotes).
+func backwardParams(fn *ssa.Function, v ssa.Value) map[*ssa.Parameter]bool {
+	out := map[*ssa.Parameter]bool{}
+	seen := map[ssa.Value]bool{}
+	var walk func(v ssa.Value, depth int)
+	walk = func(v ssa.Value, depth int) {
+		if v == nil || seen[v] || depth > 60 {
+			return
+		}
+		seen[v] = true
+		switch x := v.(type) {
+		case *ssa.Parameter:
+			out[x] = true
+			return
+		case *ssa.Const, *ssa.Global, *ssa.Function, *ssa.Builtin, *ssa.FreeVar:
+			return
+		}
+		if in, ok := v.(ssa.Instruction); ok {
+			for _, op := range in.Operands(nil) {
+				if op != nil && *op != nil {
+					walk(*op, depth+1)
+				}
+			}
+		}
+		// what is put into a container or cell made here
+		switch v.(type) {
+		case *ssa.MakeMap, *ssa.MakeSlice, *ssa.Alloc, *ssa.Slice, *ssa.IndexAddr, *ssa.FieldAddr:
+			if refs := v.Referrers(); refs != nil {
+				for _, r := range *refs {
+					switch y := r.(type) {
+					case *ssa.MapUpdate:
+						if y.Map == v {
+							walk(y.Key, depth+1)
+							walk(y.Value, depth+1)
+						}
+					case *ssa.Store:
+						if y.Addr == v {
+							walk(y.Val, depth+1)
+						}
+					case *ssa.IndexAddr:
+						if y.X == v {
+							walk(y, depth+1)
+						}
+					case *ssa.FieldAddr:
+						if y.X == v {
+							walk(y, depth+1)
+						}
+					case *ssa.Slice:
+						if y.X == v {
+							walk(y, depth+1)
+						}
+					}
+				}
+			}
+		}
+	}
+	walk(v, 0)
+	return out
+}
+
+// R4.12 [C04]
+func ruleMemoKeyCoversInputs(c *eng.Ctx) {
+	const R = "R4.12-MEMO-KEY-COVERS-INPUTS"
+	c.Rule(R, "a value that a lookup function of reader.Reader stores in a map kept on the reader is computed only from the receiver and from the parameters its key is computed from: a result that also depends on another reference parameter (the set of objects on the current resolution path, an options struct) is not a function of the key, and the memo returns the answer of one context in another", 1, 1)
+	eff := eng.EffectsOf(c.P)
+	n := 0
+	for _, fn := range c.P.ModuleFuncs() {
+		if fn.Pkg == nil || fn.Blocks == nil || fn.Signature.Recv() == nil {
+			continue
+		}
+		sp := eng.ShortPath(fn.Pkg.Pkg.Path())
+		if sp != "reader" && !strings.Contains(sp, eng.PositivePkg) {
+			continue
+		}
+		eng.Instrs(fn, false, func(in ssa.Instruction) {
+			mu, ok := in.(*ssa.MapUpdate)
+			if !ok || eff.RootOf(mu.Map).Param != 0 {
+				return
+			}
+			n++
+			key := backwardParams(fn, mu.Key)
+			val := backwardParams(fn, mu.Value)
+			var extra []string
+			for p := range val {
+				if p == fn.Params[0] || key[p] {
+					continue
+				}
+				switch p.Type().Underlying().(type) {
+				case *types.Map, *types.Pointer, *types.Slice:
+					extra = append(extra, p.Name())
+				}
+			}
+			sort.Strings(extra)
+			fld := "a map of the receiver"
+			if fr, ok := eng.LoadOfField(mu.Map); ok {
+				fld = fr.Field
+			}
+			c.Check(len(extra) == 0, R, fmt.Sprintf("%s#%s", eng.FuncName(fn), fld), mu.Pos(), "the stored value depends on the receiver and the key's inputs only", "the value stored in "+fld+" also depends on the parameter(s) "+strings.Join(extra, ", ")+", which the key does not cover: a later lookup with the same key in another context gets the answer computed for this one")
+		})
+	}
+	if n == 0 {
+		c.Undec(R, "reader#memo-stores", token.NoPos, "no store into a map of the reader found")
+	}
+}
+
+// ---------------------------------------------------------------------------------------------------------------
+// R4.13 the second field of a cross-reference entry is read only where the entry's type is known.
+
+// entryTypeKnown: at block blk of fn a comparison of base.Type with a constant (==, or a switch arm) is established, or
+// base is a parameter of an unexported function whose every call site is reached under such a comparison.
+func entryTypeKnown(p *eng.Prog, fn *ssa.Function, blk *ssa.BasicBlock, base ssa.Value, depth int) bool {
+	isTypeOf := func(v ssa.Value) bool {
+		if ct, ok := v.(*ssa.ChangeType); ok {
+			v = ct.X
+		}
+		if cv, ok := v.(*ssa.Convert); ok {
+			v = cv.X
+		}
+		fr, ok := eng.LoadOfField(v)
+		return ok && fr.Field == "Type" && fr.Struct == "core.XRefEntry" && eng.SameValue(fr.Base, base)
+	}
+	if eng.GuardedBy(fn, blk, func(f eng.Fact) bool {
+		op, x, y, ok := f.Cmp()
+		if !ok || (op != token.EQL && op != token.NEQ) {
+			return false
+		}
+		if _, isC := eng.ConstInt(y); isC && isTypeOf(x) {
+			return true
+		}
+		if _, isC := eng.ConstInt(x); isC && isTypeOf(y) {
+			return true
+		}
+		return false
+	}) {
+		return true
+	}
+	par, isPar := base.(*ssa.Parameter)
+	if !isPar || depth > 2 {
+		return false
+	}
+	if obj, ok := fn.Object().(*types.Func); !ok || obj.Exported() {
+		return false
+	}
+	pi := -1
+	for i, q := range fn.Params {
+		if q == par {
+			pi = i
+		}
+	}
+	sites, all := 0, true
+	for _, g := range p.ModuleFuncs() {
+		if g.Pkg != fn.Pkg {
+			continue
+		}
+		for _, ci := range eng.Calls(g, true, func(_ string, ci ssa.CallInstruction) bool { return eng.StaticCallee(ci) == fn }) {
+			sites++
+			args := eng.ArgsWithRecv(ci)
+			if pi < 0 || pi >= len(args) || !entryTypeKnown(p, ci.Parent(), ci.Block(), args[pi], depth+1) {
+				all = false
+			}
+		}
+	}
+	return sites > 0 && all
+}
+
+// R4.13 [C04]
+func ruleEntryOffsetByType(c *eng.Ctx) {
+	const R = "R4.13-ENTRY-OFFSET-BY-TYPE"
+	c.Rule(R, "outside the cross-reference parser, XRefEntry.Offset is read only where the entry's Type has been compared with a constant (a switch arm, an == test, or every call site of the unexported function that reads it): the field is a file position for an uncompressed entry and the number of the containing object stream for a compressed one, so a test or use that does not know the type misreads one of them", 3, 1)
+	n := 0
+	for _, fn := range c.P.ModuleFuncs() {
+		if fn.Pkg == nil || fn.Blocks == nil {
+			continue
+		}
+		sp := eng.ShortPath(fn.Pkg.Pkg.Path())
+		if sp == "core" && !strings.Contains(eng.FuncName(fn), "ObjectStream") {
+			// the parser and the table itself write and copy entries
+			continue
+		}
+		eng.Instrs(fn, true, func(in ssa.Instruction) {
+			u, ok := in.(*ssa.UnOp)
+			if !ok || u.Op != token.MUL {
+				return
+			}
+			fr, ok := eng.AsField(u.X)
+			if !ok || fr.Field != "Offset" || (fr.Struct != "core.XRefEntry" && !strings.HasSuffix(fr.Struct, eng.PositivePkg+".XRefEntry")) {
+				return
+			}
+			if strings.Contains(sp, eng.PositivePkg) {
+				// positive example: a local twin of the entry type
+				known := eng.GuardedBy(in.Parent(), in.Block(), func(f eng.Fact) bool {
+					op, x, _, ok := f.Cmp()
+					if !ok || op != token.EQL {
+						return false
+					}
+					fr2, ok := eng.LoadOfField(x)
+					return ok && fr2.Field == "Type"
+				})
+				if !known {
+					c.Viol(R, eng.FuncName(in.Parent())+"#Offset", in.Pos(), "Offset read without knowing the entry type")
+				}
+				return
+			}
+			n++
+			known := entryTypeKnown(c.P, in.Parent(), in.Block(), fr.Base, 0)
+			c.Check(known, R, fmt.Sprintf("%s#Offset@%s", eng.FuncName(in.Parent()), c.P.Pos(in.Pos())), in.Pos(), "read where the entry type is known", "XRefEntry.Offset is read where the entry's type has not been tested: for a compressed entry the field holds the number of the object stream, not a file position, so a range test or seek written for one kind is applied to the other")
+		})
+	}
+	if n == 0 {
+		c.Undec(R, "module#offset-reads", token.NoPos, "no read of XRefEntry.Offset found outside the parser")
+	}
+}
+
+// ---------------------------------------------------------------------------------------------------------------
+// R3.13 nothing taken from a sync.Pool outlives its return to the pool.
+
+// R3.13 [C03, C05]
+func rulePooledObjectsStayInside(c *eng.Ctx) {
+	const R = "R3.13-POOLED-OBJECT-ESCAPES"
+	c.Rule(R, "an object taken from a sync.Pool and put back by the same function is not handed out: no result, stored value or map entry is the object, a re-slice of it, or the reference returned by one of its methods (buf.Bytes()); a bytes.Buffer or strings.Builder taken from a pool is Reset in the function. Memory that went back to the pool is overwritten by the next user, which is a later call or a later stage of the same filter chain", 0, 1)
+	n := 0
+	for _, fn := range c.P.ModuleFuncs() {
+		if fn.Pkg == nil || fn.Blocks == nil {
+			continue
+		}
+		var gets []*ssa.Call
+		eng.Instrs(fn, false, func(in ssa.Instruction) {
+			if call, ok := in.(*ssa.Call); ok && eng.CalleeName(call) == "sync.(*Pool).Get" {
+				gets = append(gets, call)
+			}
+		})
+		for _, get := range gets {
+			n++
+			// the object and its typed views
+			objs := map[ssa.Value]bool{get: true}
+			for changed := true; changed; {
+				changed = false
+				for o := range objs {
+					if refs := o.Referrers(); refs != nil {
+						for _, r := range *refs {
+							switch x := r.(type) {
+							case *ssa.TypeAssert:
+								if !objs[x] {
+									objs[x], changed = true, true
+								}
+							case *ssa.Extract:
+								if x.Index == 0 && !objs[x] {
+									objs[x], changed = true, true
+								}
+							case *ssa.Phi, *ssa.ChangeType, *ssa.MakeInterface:
+								if v := r.(ssa.Value); !objs[v] {
+									objs[v], changed = true, true
+								}
+							}
+						}
+					}
+				}
+			}
+			put, reset := false, false
+			needsReset := false
+			for o := range objs {
+				if pt, ok := o.Type().(*types.Pointer); ok {
+					if nt, ok := pt.Elem().(*types.Named); ok && nt.Obj().Pkg() != nil {
+						q := nt.Obj().Pkg().Path() + "." + nt.Obj().Name()
+						if q == "bytes.Buffer" || q == "strings.Builder" {
+							needsReset = true
+						}
+					}
+				}
+			}
+			eng.Instrs(fn, false, func(in ssa.Instruction) {
+				ci, ok := in.(ssa.CallInstruction)
+				if !ok {
+					return
+				}
+				name := eng.CalleeName(ci)
+				args := eng.ArgsWithRecv(ci)
+				if name == "sync.(*Pool).Put" && len(args) > 1 && objs[args[1]] {
+					put = true
+				}
+				if (strings.HasSuffix(name, ").Reset") || strings.HasSuffix(name, ").Truncate")) && len(args) > 0 && objs[args[0]] {
+					reset = true
+				}
+			})
+			key := fmt.Sprintf("%s#pool.Get@%s", eng.FuncName(fn), c.P.Pos(get.Pos()))
+			if !put {
+				c.Ok(R, key, get.Pos(), "the object is not put back by this function")
+				continue
+			}
+			// references derived from the object
+			derived := map[ssa.Value]bool{}
+			for o := range objs {
+				derived[o] = true
+			}
+			for changed := true; changed; {
+				changed = false
+				for d := range derived {
+					refs := d.Referrers()
+					if refs == nil {
+						continue
+					}
+					for _, r := range *refs {
+						var nv ssa.Value
+						switch x := r.(type) {
+						case *ssa.Slice, *ssa.Phi, *ssa.ChangeType, *ssa.MakeInterface, *ssa.FieldAddr, *ssa.IndexAddr:
+							nv = r.(ssa.Value)
+						case *ssa.UnOp:
+							if x.Op == token.MUL {
+								switch x.Type().Underlying().(type) {
+								case *types.Slice, *types.Pointer, *types.Map:
+									nv = x
+								}
+							}
+						case *ssa.Store:
+							// a local cell (results are spilled into cells when the function defers): its loads
+							if a, ok := x.Addr.(*ssa.Alloc); ok && x.Val == d {
+								for _, rr := range *a.Referrers() {
+									if u, ok := rr.(*ssa.UnOp); ok && u.Op == token.MUL && !derived[u] {
+										derived[u], changed = true, true
+									}
+								}
+							}
+						case *ssa.Call:
+							// a method of the object that returns a reference (Bytes, Next, …)
+							args := eng.ArgsWithRecv(x)
+							if len(args) > 0 && derived[args[0]] && x.Call.Signature().Recv() != nil {
+								switch x.Type().Underlying().(type) {
+								case *types.Slice, *types.Pointer, *types.Map:
+									nv = x
+								}
+							}
+							if bi, ok := x.Call.Value.(*ssa.Builtin); ok && bi.Name() == "append" && len(x.Call.Args) > 0 && derived[x.Call.Args[0]] {
+								nv = x
+							}
+						}
+						if nv != nil && !derived[nv] {
+							derived[nv], changed = true, true
+						}
+					}
+				}
+			}
+			var bad []string
+			eng.Instrs(fn, false, func(in ssa.Instruction) {
+				switch x := in.(type) {
+				case *ssa.Return:
+					for _, res := range x.Results {
+						if derived[res] {
+							bad = append(bad, "returned at "+c.P.Pos(x.Pos()))
+						}
+					}
+				case *ssa.Store:
+					if derived[x.Val] {
+						if _, ok := x.Addr.(*ssa.Alloc); ok {
+							return
+						}
+						bad = append(bad, "stored at "+c.P.Pos(x.Pos()))
+					}
+				case *ssa.MapUpdate:
+					if derived[x.Value] {
+						bad = append(bad, "put into a map at "+c.P.Pos(x.Pos()))
+					}
+				}
+			})
+			if needsReset && !reset {
+				bad = append(bad, "the buffer is used without Reset: it still holds what the previous user wrote")
+			}
+			sort.Strings(bad)
+			c.Check(len(bad) == 0, R, key, get.Pos(), "nothing of the pooled object escapes, and it is reset", "memory of an object that this function puts back into the pool is handed out ("+strings.Join(bad, "; ")+"): the next Get reuses it and overwrites what the caller still holds")
+		}
+	}
+	if n == 0 {
+		c.Ok(R, "module#pools", token.NoPos, "no sync.Pool is used in the module")
+	}
+}
+
+// ---------------------------------------------------------------------------------------------------------------
+// R5.15 the bytes handed to a decompressor are the filter's input, whole.
+
+// R5.15 [C05]
+func ruleDecompressorGetsWholeInput(c *eng.Ctx) {
+	const R = "R5.15-DECOMPRESSOR-INPUT-WHOLE"
+	c.Rule(R, "the byte slice wrapped for zlib/flate/lzw decompression in internal/filters is the data parameter of the decoder itself (possibly handed through unexported helpers), not the result of a trim, a truncating re-slice or any other call: the compressed stream is binary, its last bytes are a checksum, and 0x0A/0x0D are as likely there as anywhere", 1, 1)
+	n := 0
+	for _, fn := range c.P.ModuleFuncs() {
+		if fn.Pkg == nil || fn.Blocks == nil {
+			continue
+		}
+		sp := eng.ShortPath(fn.Pkg.Pkg.Path())
+		if sp != "internal/filters" && !strings.Contains(sp, eng.PositivePkg) {
+			continue
+		}
+		eng.Instrs(fn, true, func(in ssa.Instruction) {
+			call, ok := in.(*ssa.Call)
+			if !ok {
+				return
+			}
+			switch eng.CalleeName(call) {
+			case "compress/zlib.NewReader", "compress/flate.NewReader", "compress/lzw.NewReader", "compress/zlib.NewReaderDict", "compress/flate.NewReaderDict":
+			default:
+				return
+			}
+			// the reader argument: bytes.NewReader(X) / bytes.NewBuffer(X)
+			var src ssa.Value
+			for w := range eng.Slice(call.Call.Args[0], nil) {
+				if wc, ok := w.(*ssa.Call); ok {
+					switch eng.CalleeName(wc) {
+					case "bytes.NewReader", "bytes.NewBuffer":
+						src = wc.Call.Args[0]
+					}
+				}
+			}
+			if src == nil {
+				return
+			}
+			n++
+			var why string
+			seen := map[ssa.Value]bool{}
+			var whole func(v ssa.Value, depth int) bool
+			whole = func(v ssa.Value, depth int) bool {
+				if seen[v] {
+					return true
+				}
+				seen[v] = true
+				if depth > 6 {
+					why = "the origin of the bytes could not be followed"
+					return false
+				}
+				switch x := v.(type) {
+				case *ssa.Parameter:
+					g := x.Parent()
+					if obj, ok := g.Object().(*types.Func); ok && obj.Exported() || g.Parent() != nil {
+						return true
+					}
+					pi := -1
+					for i, q := range g.Params {
+						if q == x {
+							pi = i
+						}
+					}
+					sites := 0
+					for _, h := range c.P.ModuleFuncs() {
+						if h.Pkg != g.Pkg {
+							continue
+						}
+						for _, ci := range eng.Calls(h, true, func(_ string, ci ssa.CallInstruction) bool { return eng.StaticCallee(ci) == g }) {
+							sites++
+							args := eng.ArgsWithRecv(ci)
+							if pi < 0 || pi >= len(args) || !whole(args[pi], depth+1) {
+								return false
+							}
+						}
+					}
+					return true
+				case *ssa.Phi:
+					for _, e := range x.Edges {
+						if !whole(e, depth+1) {
+							return false
+						}
+					}
+					return true
+				case *ssa.ChangeType:
+					return whole(x.X, depth+1)
+				case *ssa.Slice:
+					if x.High != nil {
+						why = "a truncating re-slice at " + c.P.Pos(x.Pos())
+						return false
+					}
+					if x.Low != nil {
+						if k, isC := eng.ConstInt(x.Low); !isC || k != 0 {
+							why = "a re-slice that drops leading bytes at " + c.P.Pos(x.Pos())
+							return false
+						}
+					}
+					return whole(x.X, depth+1)
+				case *ssa.Call:
+					why = "the result of " + eng.CalleeName(x) + " at " + c.P.Pos(x.Pos())
+					return false
+				case *ssa.UnOp:
+					if x.Op == token.MUL {
+						if a, ok := x.X.(*ssa.Alloc); ok {
+							// a local cell: every value stored into it
+							for _, r := range *a.Referrers() {
+								if st, ok := r.(*ssa.Store); ok && st.Addr == ssa.Value(a) && !whole(st.Val, depth+1) {
+									return false
+								}
+							}
+							return true
+						}
+					}
+				}
+				why = "a value that is not the decoder's input (" + v.String() + ")"
+				return false
+			}
+			okW := whole(src, 0)
+			c.Check(okW, R, fmt.Sprintf("%s#%s", eng.FuncName(in.Parent()), eng.CalleeName(call)), call.Pos(), "the decompressor reads the decoder's input as it is", "the bytes given to the decompressor are not the filter's input as it is but "+why+": a compressed stream whose last bytes happen to be the trimmed ones no longer inflates")
+		})
+	}
+	if n == 0 {
+		c.Undec(R, "internal/filters#decompressors", token.NoPos, "no zlib/flate/lzw reader construction found")
+	}
+}
